@@ -321,43 +321,73 @@ def shard(ctx):
 # ------------------------------------------------------------------------------------------
 
 def fuzz(ctx):
+    """Builds the cargo-fuzz target (`-s none`: libFuzzer only as coverage-guided generator) and runs 8 instances
+    for 7 minutes; every artifact (crash / timeout input) is re-executed through the recorder and judged by U1."""
     fuzz_dir = os.path.join(runner.HARNESS, "fuzz")
     if not os.path.isdir(fuzz_dir):
         ctx.count("fuzz-target-missing")
         return
     env = dict(runner.ENV_BASE)
-    env["CARGO_TARGET_DIR"] = os.path.join(runner.TARGET, "fuzz")
+    tdir = os.path.join(runner.TARGET, "fuzz")
+    env["CARGO_TARGET_DIR"] = tdir
     env["RUSTFLAGS"] = "--cfg " + runner.GUARD
+    p = subprocess.run(["cargo", "+nightly", "fuzz", "build", "-s", "none", "c03_totality"], cwd=fuzz_dir, env=env,
+                       stdout=subprocess.PIPE, stderr=subprocess.STDOUT)
+    binary = os.path.join(tdir, "x86_64-unknown-linux-gnu", "release", "c03_totality")
+    if p.returncode != 0 or not os.path.exists(binary):
+        ctx.count("fuzz-build-failed")
+        ctx.inconclusive += 1
+        return
     corpus_dir = os.path.join(runner.TARGET, "fuzz-corpus")
     art = os.path.join(runner.TARGET, "fuzz-artifacts")
     shutil.rmtree(art, ignore_errors=True)
+    shutil.rmtree(corpus_dir, ignore_errors=True)
     os.makedirs(corpus_dir, exist_ok=True)
     os.makedirs(art, exist_ok=True)
-    for name, root, files in lib.corpus()[:400]:
+    for name, root, files in lib.corpus():
         with open(os.path.join(corpus_dir, name.replace("/", "_")), "wb") as f:
             f.write(files[root])
-    secs = 420
-    cmd = ["cargo", "+nightly", "fuzz", "run", "-s", "none", "c03_totality", corpus_dir, "--", "-timeout=10", "-fork=8",
-           "-max_total_time=%d" % secs, "-artifact_prefix=" + art + "/", "-ignore_crashes=1", "-max_len=4096"]
+    secs = int(os.environ.get("VERIF_FUZZ_S", "420"))
+    procs = []
     t0 = time.time()
-    try:
-        p = subprocess.run(cmd, cwd=fuzz_dir, env=env, stdout=subprocess.PIPE, stderr=subprocess.STDOUT, timeout=secs + 600)
-    except subprocess.TimeoutExpired:
-        ctx.count("fuzz-watchdog")
-        return
-    out = p.stdout.decode("utf8", "replace")
-    m = re.findall(r"#(\d+):? ", out)
-    ctx.count("fuzz-executions", max([int(x) for x in m] or [0]))
+    for k in range(8):
+        logf = open(os.path.join(art, "log%d.txt" % k), "wb")
+        procs.append((subprocess.Popen([binary, "-timeout=10", "-max_total_time=%d" % secs, "-max_len=4096", "-seed=%d" % (ctx.seed * 100 + k + 1),
+                                        "-artifact_prefix=%s/i%d-" % (art, k), "-print_final_stats=1", corpus_dir],
+                                       stdout=logf, stderr=subprocess.STDOUT, cwd=art), logf))
+    execs = 0
+    for pr, logf in procs:
+        try:
+            pr.wait(timeout=secs + 300)
+        except subprocess.TimeoutExpired:
+            pr.kill()
+            ctx.count("fuzz-watchdog")
+        logf.close()
+    for k in range(8):
+        try:
+            with open(os.path.join(art, "log%d.txt" % k), "r", errors="replace") as f:
+                m = re.findall(r"stat::number_of_executed_units:\s*(\d+)", f.read())
+                execs += int(m[-1]) if m else 0
+        except OSError:
+            pass
+    ctx.count("fuzz-executions", execs)
     ctx.count("fuzz-wall-s", int(time.time() - t0))
     ctx.monitor("u1-libfuzzer")
+    ctx.evaluated(execs)
     worker = ctx.worker("rel")
-    for fn in sorted(os.listdir(art))[:200]:
+    for fn in sorted(os.listdir(art)):
+        if fn.startswith("log"):
+            continue
         with open(os.path.join(art, fn), "rb") as f:
             data = f.read()
-        job = lib.asm_job(lib.files_json({"main.asm": data}), want=["msgs", "printed"], std=True)
+        job = lib.asm_job(lib.files_json({"main.asm": data, "inc.asm": "#d8 0x11\n"}), want=["msgs", "printed"])
         rec = worker.run(job)
         ctx.evaluated()
-        u1_library(ctx, job, rec)
+        ctx.count("fuzz-artifact:" + fn.split("-")[1] if "-" in fn else "fuzz-artifact")
+        r = u1_library(ctx, job, rec)
+        if r is not None and not fn.split("-")[1].startswith("timeout"):
+            # the target's own assertion fired (U1 in-process) although the replay looks fine: report it as is
+            ctx.violation("u1", {"kind": "libfuzzer-artifact-not-reproduced", "artifact": fn.split("-")[1]}, job, "no artifact", fn)
 
 
 def replay(ctx, v):
